@@ -10,7 +10,7 @@ from capi import Lib
 from vlib import Oracle, build_lib
 
 PID = "c03"
-THEOREMS = ["C03_lossless", "C03_lossless_nodict", "C03_compressFrame_lossless", "C03_frame_is_bytes", "C03_roundtrip", "C03_compressFrame_roundtrip", "C03_history_extension", "C03_update_fuel_suffices", "C03_legal_session"]
+THEOREMS = ["C03_lossless", "C03_lossless_nodict", "C03_compressFrame_lossless", "C03_frame_is_bytes", "C03_roundtrip", "C03_compressFrame_roundtrip", "C03_history_extension", "C03_update_fuel_suffices", "C03_legal_session", "C03_roundtrip_linked_discharged", "C03_linked_premise_fast", "C03_linked_premise_hc_mid", "C03_linked_premise_hc_opt", "C03_roundtrip_linked_fast", "C03_roundtrip_linked_hc_mid", "C03_roundtrip_linked_hc_opt", "C03_body_is_C03_lossless"]
 ORACLES = ["framec"]
 CORRESPONDENCE = [
     "FrameC model == LZ4F_compressBegin*/compressUpdate/uncompressedUpdate/flush/compressEnd (return value and every output byte of every call)",
